@@ -15,6 +15,7 @@ import (
 	"io"
 	"net/http"
 	"net/url"
+	"regexp"
 	"time"
 
 	"github.com/saucelabs/forwarder/internal/martian"
@@ -166,4 +167,55 @@ func vfH_C04_stack() {
 func vfBasicOK(v string) bool {
 	r := &http.Request{Header: http.Header{"Proxy-Authorization": []string{v}}}
 	return middleware.NewProxyBasicAuth().AuthenticatedRequest(r, "u", "pw")
+}
+
+//vf:assume C04-denydomains: deny-domains built by the real ruleset code from one of three lists (an include rule, an include with case-insensitive / case-sensitive exclusions, two includes) x 8 host spellings, through the real modifier stack; the reference verdict evaluates each rule on its own (C17 decides the matcher in general; this ties it to the 403)
+
+//vf:harness property=C04 nopanic reach=denydomains-refused,denydomains-passed steps=6000000
+func vfH_C04_denydomains() {
+	lists := [][]string{
+		{`\.corp$`},
+		{`\.corp$`, `-(?i)^wiki\.corp$`, `-^ci\.corp$`},
+		{`(?i)^a\.example$`, `b\.example$`},
+	}
+	li := vfrt.Choice("list", len(lists))
+	hosts := []string{"ci.corp", "CI.corp", "wiki.corp", "WIKI.corp", "x.corp", "A.example", "B.example", "b.example"}
+	host := hosts[vfrt.Choice("host", len(hosts))]
+	var items []ruleset.RegexpListItem
+	denied, excluded := false, false
+	for _, r := range lists[li] {
+		it, err := ruleset.ParseRegexpListItem(r)
+		vfrt.Assert(err == nil, "denydomains/rule-parses")
+		items = append(items, it)
+		src := r
+		if it.Exclude {
+			src = r[1:]
+		}
+		m := regexp.MustCompile(src).MatchString(host) // the rule taken on its own
+		if it.Exclude {
+			excluded = excluded || m
+		} else {
+			denied = denied || m
+		}
+	}
+	m, err := ruleset.NewRegexpMatcherFromList(items)
+	vfrt.Assert(err == nil, "denydomains/matcher-built")
+	cfg := HTTPProxyConfig{}
+	cfg.Name = "fw"
+	cfg.ProxyLocalhost = AllowProxyLocalhost
+	cfg.DenyDomains = m
+	hp := vfNewHTTPProxy(cfg)
+	method := []string{"GET", "CONNECT"}[vfrt.Choice("method", 2)]
+	req := &http.Request{Method: method, Header: http.Header{}, ProtoMajor: 1, ProtoMinor: 1, Host: host + ":443",
+		URL: &url.URL{Scheme: "http", Host: host + ":443", Path: "/x"}, RemoteAddr: "192.0.2.1:5555", Body: http.NoBody}
+	merr := hp.proxy.RequestModifier.ModifyRequest(req)
+	want := denied && !excluded
+	vfrt.Assert((merr != nil) == want, "denydomains/refused-iff-an-include-rule-matches-and-no-exclusion-does")
+	if merr != nil {
+		vfrt.Reach("denydomains-refused")
+		res := hp.errorResponse(req, merr)
+		vfrt.Assert(res != nil && res.StatusCode == 403, "denydomains/refused-with-403")
+	} else {
+		vfrt.Reach("denydomains-passed")
+	}
 }
